@@ -27,6 +27,16 @@ pub struct Case {
     pub vars: Vec<(String, Ty)>,
     pub shape: String,
     pub out: usize,
+    /// further rules run in the SAME iteration (own Out tables): plans of one rule set share cached tries / indexes
+    #[serde(default)]
+    pub more: Vec<ExtraRule>,
+}
+
+#[derive(Clone, Serialize, Deserialize)]
+pub struct ExtraRule {
+    pub body: Vec<Fact>,
+    pub vars: Vec<(String, Ty)>,
+    pub out: usize,
 }
 
 pub struct C02;
@@ -289,7 +299,35 @@ fn gen_body(s: &mut Src, sig: &Sig) -> (Vec<Fact>, Vec<(String, Ty)>, String) {
 }
 
 fn out_rows(d: &crate::eng::CanonDump) -> Vec<String> {
-    d.tables.get("Out").cloned().unwrap_or_default()
+    let mut v = vec![];
+    for (k, rows) in &d.tables {
+        if k.starts_with("Out") {
+            v.extend(rows.iter().map(|r| format!("{k}{r}")));
+        }
+    }
+    v
+}
+
+/// same atoms, but in one table atom two argument positions are swapped
+fn variant_of(s: &mut Src, body: &[Fact]) -> Vec<Fact> {
+    let mut b = body.to_vec();
+    let cands: Vec<usize> = b.iter().enumerate().filter(|(_, f)| matches!(f, Fact::T(Term::App(_, a)) if a.len() >= 2)).map(|(i, _)| i).collect();
+    if cands.is_empty() {
+        return b;
+    }
+    let i = *s.pick(&cands);
+    if let Fact::T(Term::App(f, args)) = &b[i] {
+        let mut a = args.clone();
+        let p = s.below(a.len());
+        let q = (p + 1 + s.below(a.len() - 1)) % a.len();
+        // only swap positions of the same type (all int columns in E/T/W; M/Q/P mix types)
+        let same = matches!((&a[p], &a[q]), (Term::Var(x), Term::Var(y)) if x.chars().next() == y.chars().next()) || matches!((&a[p], &a[q]), (Term::I(_), _) | (_, Term::I(_)));
+        if same {
+            a.swap(p, q);
+            b[i] = Fact::T(Term::App(*f, a));
+        }
+    }
+    b
 }
 
 impl Stage for C02 {
@@ -303,11 +341,26 @@ impl Stage for C02 {
         let data = gen_data(s, &sig);
         sig.funcs.push(FuncDecl { name: "Out".into(), kind: FKind::Rel, args: vars.iter().map(|v| v.1.clone()).collect(), out: Ty::I64 });
         let out = sig.funcs.len() - 1;
-        Case { sig, data, body, vars, shape, out }
+        // 0-2 further rules for the same iteration: a variant of the first body (same atoms, two argument
+        // positions of one atom swapped: same tables, same number of constraints, different content) or a fresh body
+        let mut more = vec![];
+        let n_more = s.pick_weighted(&[5, 3, 2]);
+        for i in 0..n_more {
+            let (b2, v2) = if s.bool() {
+                (variant_of(s, &body), vars.clone())
+            } else {
+                let (b, v, _) = gen_body(s, &sig);
+                (b, v)
+            };
+            sig.funcs.push(FuncDecl { name: format!("Out{}", i + 1), kind: FKind::Rel, args: v2.iter().map(|v| v.1.clone()).collect(), out: Ty::I64 });
+            more.push(ExtraRule { body: b2, vars: v2, out: sig.funcs.len() - 1 });
+        }
+        Case { sig, data, body, vars, shape, out, more }
     }
     fn render(&self, c: &Case) -> serde_json::Value {
         let rule = Cmd::Rule { body: c.body.clone(), head: vec![self.head(c)], opts: RuleOpts::default() };
-        serde_json::json!({"shape": c.shape, "rule": c.sig.cmd(&rule), "declarations": c.sig.prelude(), "data": c.data.iter().map(|d| c.sig.cmd(d)).collect::<Vec<_>>()})
+        let more: Vec<String> = c.more.iter().map(|r| format!("(rule ({}) ((Out.. {})))", c.sig.facts(&r.body), r.vars.iter().map(|v| v.0.clone()).collect::<Vec<_>>().join(" "))).collect();
+        serde_json::json!({"shape": c.shape, "rule": c.sig.cmd(&rule), "more_rules_same_iteration": more, "declarations": c.sig.prelude(), "data": c.data.iter().map(|d| c.sig.cmd(d)).collect::<Vec<_>>()})
     }
     fn simplify(&self, c: &Case) -> Vec<Case> {
         let mut v = vec![];
@@ -325,6 +378,11 @@ impl Stage for C02 {
                 d.data.remove(i);
                 v.push(d);
             }
+        }
+        for i in 0..c.more.len() {
+            let mut d = c.clone();
+            d.more.remove(i);
+            v.push(d);
         }
         for i in 0..c.body.len() {
             if c.body.len() > 1 {
@@ -380,11 +438,16 @@ impl Stage for C02 {
             }
         };
         let head = self.head(c);
+        let extra_rules: Vec<Cmd> = c
+            .more
+            .iter()
+            .map(|r| Cmd::Rule { body: r.body.clone(), head: vec![Action::Expr(Term::App(r.out, r.vars.iter().map(|(v, _)| Term::Var(v.clone())).collect()))], opts: RuleOpts::default() })
+            .collect();
         let plain = Cmd::Rule { body: c.body.clone(), head: vec![head.clone()], opts: RuleOpts::default() };
         let mut m2 = Model::new(sig);
         m2.limits = Limits { max_rows: 100_000, max_matches: 1_500_000, max_saturate_iters: 10 };
         m2.st = model.st.clone();
-        if m2.apply(&plain).is_err() || m2.apply(&Cmd::RunN { rs: None, n: 1, until: vec![] }).is_err() {
+        if m2.apply(&plain).is_err() || extra_rules.iter().any(|r| m2.apply(r).is_err()) || m2.apply(&Cmd::RunN { rs: None, n: 1, until: vec![] }).is_err() {
             out.class("model-discard:apply");
             return out;
         }
@@ -417,6 +480,21 @@ impl Stage for C02 {
                     }
                     return out;
                 }
+            }
+            let mut rejected = false;
+            for r in &extra_rules {
+                // the extra rules carry the same options as the first one
+                let r2 = match (r, &rule) {
+                    (Cmd::Rule { body, head, .. }, Cmd::Rule { opts, .. }) => Cmd::Rule { body: body.clone(), head: head.clone(), opts: opts.clone() },
+                    _ => r.clone(),
+                };
+                if !eng::run(&mut e2, &sig.cmd(&r2)).is_ok() {
+                    rejected = true;
+                }
+            }
+            if rejected {
+                out.class("extra-rule-rejected");
+                return out;
             }
             match eng::run(&mut e2, "(run 1)") {
                 CmdRes::Ok(_) => {}
@@ -461,6 +539,7 @@ impl Stage for C02 {
                         rows.iter().map(|r| format!("({}) -> ()", r.iter().map(|v| namer.name(v).map(|x| x.1).unwrap_or_else(|| "??".into())).collect::<Vec<_>>().join(" "))).collect();
                     got.sort();
                     got.dedup();
+                    let expected: Vec<String> = expected.iter().filter(|r| r.starts_with("Out(")).map(|r| r["Out".len()..].to_string()).collect();
                     if got != expected {
                         out.fail("query-api-differs", format!("EGraph::query({}) returned the set {:?} but the body's matches are {:?}", sig.facts(&c.body), got.iter().take(8).collect::<Vec<_>>(), expected.iter().take(8).collect::<Vec<_>>()));
                         return out;
@@ -476,6 +555,7 @@ impl Stage for C02 {
             }
         }
         out.class(format!("shape:{}", c.shape));
+        out.class(format!("rules-in-iteration:{}", 1 + c.more.len()));
         if !matches.is_empty() {
             out.class("has-matches");
         }
